@@ -511,6 +511,18 @@ func checkMirror(c *Check, p *Prog) {
 			}
 		}
 		for _, ix := range idxs {
+			// start + step*i with start, step chosen by the direction flag is ite(flag, i, n-1-i) in disguise
+			conds := map[*Term]bool{}
+			Walk(ix, map[*Term]bool{}, func(u *Term) {
+				if u.Op == "ite" {
+					conds[u.Args[0]] = true
+				}
+			})
+			if len(conds) == 1 && ix.Op != "ite" {
+				for cnd := range conds {
+					ix = S.Op("ite", TInt, cnd, S.RestrictDeep(ix, cnd), S.RestrictDeep(ix, S.Not(cnd)))
+				}
+			}
 			leaves(ix, S.True)
 		}
 		// substituting forward -> !forward and i -> n-1-i must map every transfer onto itself
